@@ -105,7 +105,7 @@ def distributions(d, ctx):
                         allow_if=mm.explicit_refusal)
         _cmp_fields(stacked, alone, fields, f'{which}-fit-slice', idx,
                     rtol=1e-6 if which == 'bingham' else 1e-9,
-                    atol=1e-6 if which == 'bingham' else 1e-12)
+                    atol=1e-6 if which == 'bingham' else 1e-12)  # same input bytes per slice: the solver is deterministic
         if which == 'watson':
             pa_ = np.einsum('d,e->de', stacked.mode[idx], stacked.mode[idx].conj())
             pb_ = np.einsum('d,e->de', alone.mode, alone.mode.conj())
